@@ -32,7 +32,7 @@ var Prop = &engine.Prop{
 		"multi-key calls use duplicate-free sub-sequences of one global key order (the property's domain)",
 		"admission order among waiters is not judged (sync.RWMutex decides it)",
 	},
-	ShardsQuick: 8, ShardsThorough: 32,
+	ShardsQuick: 8, ShardsThorough: 16,
 	Setup: func(c *engine.Ctx) { Q = engine.NewQuiescer() },
 	Kinds: []engine.Kind{
 		{Name: "sched", Quick: 12000, Thorough: 800000, Fn: schedCase},
